@@ -105,15 +105,45 @@ func vfC07Compare(v *vfT, offerText, answerText string, unusable func(*vfFamBOSe
 			pair[i] = i
 		}
 	case len(ans.Sections) < len(off.Sections):
-		j := 0
-		for i, o := range off.Sections {
-			pair[i] = -1
-			if j < len(ans.Sections) {
-				a := ans.Sections[j]
-				if (a.Mid() != "" && a.Mid() == o.Mid()) || (a.Mid() == "" && a.Media == o.Media) {
-					pair[i] = j
-					j++
+		// Order-preserving alignment (answer sections may lack a mid: C06's finding) that explains
+		// the missing sections with as few "other" drops as possible.
+		no, na := len(off.Sections), len(ans.Sections)
+		const inf = 1 << 20
+		cost := make([][]int, no+1)
+		for i := range cost {
+			cost[i] = make([]int, na+1)
+			for j := range cost[i] {
+				cost[i][j] = inf
+			}
+		}
+		cost[no][na] = 0
+		okPair := func(i, j int) bool {
+			o, a := off.Sections[i], ans.Sections[j]
+			return (a.Mid() != "" && a.Mid() == o.Mid()) || (a.Mid() == "" && a.Media == o.Media)
+		}
+		dropCost := func(i int) int {
+			if dropClass(off.Sections[i]) == "C07/dropped-section/other" {
+				return 100
+			}
+			return 1
+		}
+		for i := no - 1; i >= 0; i-- {
+			for j := na; j >= 0; j-- {
+				best := cost[i+1][j] + dropCost(i)
+				if j < na && okPair(i, j) && cost[i+1][j+1] < best {
+					best = cost[i+1][j+1]
 				}
+				if best > inf {
+					best = inf
+				}
+				cost[i][j] = best
+			}
+		}
+		for i, j := 0, 0; i < no; i++ {
+			pair[i] = -1
+			if j < na && okPair(i, j) && cost[i+1][j+1] <= cost[i+1][j]+dropCost(i) {
+				pair[i] = j
+				j++
 			}
 		}
 		for i, o := range off.Sections {
